@@ -5,6 +5,10 @@
 #define LIST u16, cntgs::AlignAs<usize, 8>, cntgs::VaryingSize<u32>, u8
 #endif
 
+#ifndef WHAT_LO
+#define WHAT_LO 0
+#define WHAT_HI 8
+#endif
 using LT = L<LIST>;
 using Alloc = SAlloc<std::byte, AF_ALWAYS_EQUAL>;
 using Vec = LT::Vec<Alloc>;
@@ -107,13 +111,34 @@ static void make_empty(Vec& v, M& m, usize way)
     m.n = 0;
 }
 
+// after reserve / emplace_back an empty vector behaves like any other vector
+static void use_after(Vec& v, M& m, int base)
+{
+    const usize want_bytes = 2 * SMAX * 8 * LT::NVARY;
+    v.reserve(2, want_bytes);
+    if (m.cap < 2)
+    {
+        m.cap = 2;
+        m.budget = want_bytes;
+    }
+    check_empty(v, base + 30);
+    inv<LT>(v, m, base + 100);
+    const auto e = draw_elem<LT>(m, 1);
+    if (has_room(m, e))
+    {
+        emplace_elem<LT>(v, e);
+        m.e[m.n++] = e;
+    }
+    inv<LT>(v, m, base + 200);
+}
+
 extern "C" void h_entry()
 {
     {
         M m{};
         Vec v;
         usize way = verif_nondet_size(), what = verif_nondet_size();
-        verif_assume(way < 7 && what < 8);
+        verif_assume(way < 7 && what >= WHAT_LO && what < WHAT_HI);  // WHAT_LO..WHAT_HI: the eight follow-ups are spread over obligations
         way = verif_fork(way);
         what = verif_fork(what);
         make_empty(v, m, way);
@@ -169,9 +194,39 @@ extern "C" void h_entry()
                 Vec c;
                 c = v;  // assigning an empty vector to a default-constructed one
                 check_empty(c, 350);
-                Vec d = make_vec<LT, Vec>(1, 8 * LT::NVARY, m.fixed, Alloc{});
+                M mc = m;
+                mc.cap = c.capacity();
+                mc.cap_exact = false;
+                inv<LT>(c, mc, 900);
+                use_after(c, mc, 1000);
+                break;
+            }
+            case 7:
+            {
+                // ... and to a non-empty vector with other fixed sizes: the target takes over the (empty) source's shape
+                M mo{};
+                for (usize j = 0; j < LT::N; ++j)
+                {
+                    if (LT::kind[j] == K_FIXED)
+                    {
+                        usize f = verif_nondet_size();
+                        verif_assume(f <= SMAX);
+                        mo.fixed[j] = verif_fork(f);
+                    }
+                }
+                mo.cap = 1;
+                mo.budget = SMAX * 8 * LT::NVARY;
+                Vec d = make_vec<LT, Vec>(1, mo.budget, mo.fixed, Alloc{});
+                const auto e = draw_elem<LT>(mo);
+                verif_assume(has_room(mo, e));
+                emplace_elem<LT>(d, e);
                 d = v;
                 check_empty(d, 360);
+                M md = m;
+                md.cap = d.capacity();
+                md.cap_exact = false;
+                inv<LT>(d, md, 1400);
+                use_after(d, md, 1500);
                 break;
             }
             case 5:
